@@ -8,6 +8,8 @@ def plan(tier, seed):
               ['<p tal:content="', 0, '">', 1, '</p>'], ['&', 0, 1, ';'], ['</', 0, '>', 1]]
     if not quick:
         shapes += [[0, 1, 2, 3], ['<', 0, 1, 2, '>'], ['<![CDATA[', 0, 1, ']]>'], ['a\n', 0, '\n', 1, '$$', 2]]
+    # a long template (more than 8 kB over many lines) is still one token
+    shapes.append(['0123456789abcde\n' * 600, 0, '${x +\n', 1, ' y}\n'])
     famV = dict(name='text_front_end_verbatim', module=H, fn='verbatim', jobs=[{'shape': s} for s in shapes],
                 timeout=400 if quick else 1500, vacuity=1,
                 mutants=[{'name': 'dollar_kept', 'cfg': {'shape': [0, '$$', 1, 2]}},
@@ -22,7 +24,7 @@ def plan(tier, seed):
     rj.append({'template': 't3', 'kind': 'str', 'k': 1, 'shared_cache': 'file'})
     famR = dict(name='text_render_unescaped', module=H, fn='render', jobs=rj, timeout=400 if quick else 1500, vacuity=1,
                 program_key='template', mutants=[{'name': 'text_mode_escapes', 'cfg': rj[0]},
-                                                 {'name': 'digest_without_class', 'cfg': rj[-2]}])
+                                                 {'name': 'digest_ignores_template_kind', 'cfg': rj[-2]}])
     famF = dict(name='text_file_bytes', module=H, fn='file_bytes', jobs=[{'file': True}], timeout=600, vacuity=1,
                 mutants=[{'name': 'incremental_encoder_cached', 'cfg': {'file': True}}])
     return dict(
@@ -32,7 +34,7 @@ def plan(tier, seed):
                    'chameleon.compiler:emit_func_convert', 'chameleon.compiler:Compiler.visit_Interpolation',
                    'chameleon.zpt.template:PageTextTemplateFile.render'],
         bounds=('text-mode front end on %d source shapes with up to %d symbolic code points (markup-looking skeletons '
-                'included): one token equal to the source, emitted text = source with $$ -> $; %d renders of 5 text '
+                'included, one of 9.6 kB): one token equal to the source, emitted text = source with $$ -> $; %d renders of 5 text '
                 'templates with ${v} at several places, v = %d symbolic code points (str / object with __str__ / None): '
                 'output = literal parts + str(v), nothing escaped (two of them also compiled after a markup template of the same source through one on-disk module cache, one as a file served first by PageTemplateFile, then by PageTextTemplateFile). The ${...} delimiting itself is C06\'s kernel. Outside: '
                 'CR/CRLF (normalised as documented for non-XML input), entity decoding inside ${} expressions (known '
